@@ -54,22 +54,22 @@ def err_sources(w, f):
 
 def run(rep):
     w = rep.world('dev')
-    x1(rep, w)
-    x2(rep, w)
-    x3(rep, w)
-    x4(rep, w)
+    rep.guard(x1, rep, w)
+    rep.guard(x2, rep, w)
+    rep.guard(x3, rep, w)
+    rep.guard(x4, rep, w)
     import c04
-    c04.b2w(rep, w, 'X6')     # handler addresses (catch_ip / finally_ip) are computed from widened operands
-    x7(rep, w)
-    x8(rep, w)
-    x9(rep, w)
-    x10(rep, w)
-    x11(rep, w)
-    x12(rep, w)
-    x13(rep, w)
-    x14(rep, w)
+    rep.guard(c04.b2w, rep, w, 'X6')     # handler addresses (catch_ip / finally_ip) are computed from widened operands
+    rep.guard(x7, rep, w)
+    rep.guard(x8, rep, w)
+    rep.guard(x9, rep, w)
+    rep.guard(x10, rep, w)
+    rep.guard(x11, rep, w)
+    rep.guard(x12, rep, w)
+    rep.guard(x13, rep, w)
+    rep.guard(x14, rep, w)
     import c15
-    c15.n1(rep, w)     # the exception-in-flight flag does not survive into the next run (a later try statement would re-raise a phantom)
+    rep.guard(c15.n1, rep, w)     # the exception-in-flight flag does not survive into the next run (a later try statement would re-raise a phantom)
 
 
 def x1(rep, w):
